@@ -542,7 +542,8 @@ def check_C15(tier: str, seed: int) -> int:
     cov["rule"] = ("whole runs of the packaged denver_downtown scenarios (plain, fleets, constrained charging; default Dispatcher + ChargingFleetManager + drivers; haversine network), "
                    "start time in {0h,6h,8h,8h+17s,17h,23h}, step length in {30,60,120,300}, 20-160 steps, end time a multiple of dt away or 1 / dt/2 / dt-1 seconds short of it, "
                    "lazy and eager file reading, timeout in {600,120,dt}: each scenario is loaded afresh four times and advanced by 2-4 successive hive_cosim.crank calls over a "
-                   "random split (zero-length calls included), by one crank call, by LocalSimulationRunner.run and by repeated LocalSimulationRunner.step until it refuses; final "
+                   "random split (zero-length calls included; in 60% of the scenarios a generator is taken out of the payload and put back unchanged between the calls - the "
+                   "co-simulation round trip through runner_payload_ops), by one crank call, by LocalSimulationRunner.run and by repeated LocalSimulationRunner.step until it refuses; final "
                    "states (entities and all eight indexes) and the complete event streams must be equal (random uuid4 instance/session ids renamed by first appearance); the clock "
                    "after every call, the number of steps before refusal and the runner's final time are checked by Lean against Hive.Cycle.runnerSteps / crank_clock; "
                    "evaluations = simulation steps executed; distinct_nontrivial = distinct (scenario, lazy, dt, divisible interval, #calls, has zero-length call) tuples")
